@@ -69,6 +69,15 @@ CHECKS = {
             'checked against the identifiers of F (CPython parser) and F namespace. Every name root must have been requested at least once.',
             'Identifier set taken from ast.parse of inspect.getsource(F).',
             'DESIGN.md 3/C11'),
+    'C12': ('exploration',
+            'differential of the rewritten exception (type, message, translated stack) against the original exception and traceback; marker-based source-map check',
+            'Call chains with exactly one failing statement (16+ failure kinds incl. user classes with/without custom constructors '
+            'and subclasses of listed builtins) at random position and nesting, through plain, do_not_convert and allow-listed links, '
+            'are run natively and through convert(recursive=True); type rule, cause message, innermost converted frame vs the '
+            'original traceback, subsequence/order of listed frames, one converted entry per converted function on the path are '
+            'checked; every source-map entry whose generated line carries a line marker must point at that original line.',
+            'traceback.extract_tb of the unconverted run is the reference; markers are T("L<n>") calls carried verbatim.',
+            'DESIGN.md 3/C12'),
     'C13': ('fault_enumeration',
             'failpoints at every pipeline stage x exception class around the real converted_call, plus transparency/policy monitors',
             'converted_call is compared with the direct call for 30 callable kinds x argument shapes x option sets x context '
